@@ -7,7 +7,7 @@ import json, os, sys
 sys.path.insert(0, os.path.dirname(os.path.dirname(os.path.abspath(__file__))))
 import fsim
 fsim.quiet()
-from fsim import engine_b, gen_b
+from fsim import engine_b, gen_b, props
 from fsim.rng import rng_for
 
 a = sys.argv[1:]
@@ -27,7 +27,7 @@ else:
     out = {}
     for idx in range(lo, hi):
         rng = rng_for(seed, tier, prop, "B", idx)
-        case = gen_b.make_case(prop, rng, tier, {"c19": True})
+        case = gen_b.make_case(prop, rng, tier, props.c19_opts())
         case["seed"], case["run"] = seed, idx
         run, ob = engine_b.execute(case)
         out[idx] = engine_b.full_digest(run)
